@@ -18,8 +18,26 @@ from .util import callee_name
 
 
 def join_any(a, b):
+    if a == b:
+        return a
     if isinstance(a, tuple) and isinstance(b, tuple) and a and b and a[0] == "tuple" and b[0] == "tuple" and len(a[1]) == len(b[1]):
         return ("tuple", tuple(join_any(x, y) for x, y in zip(a[1], b[1])))
+    if isinstance(a, tuple) and isinstance(b, tuple) and a and b and a[0] == "dictlit" and b[0] == "dictlit":
+        # keys present on one side only become "maybe" entries: the callee then
+        # sees the join of the value and its own default
+        da, db = dict(a[1]), dict(b[1])
+        out = []
+        for k in list(da) + [k for k in db if k not in da]:
+            if k in da and k in db:
+                va, vb = da[k], db[k]
+                ma = isinstance(va, tuple) and va and va[0] == "maybe"
+                mb = isinstance(vb, tuple) and vb and vb[0] == "maybe"
+                j = join_any(va[1] if ma else va, vb[1] if mb else vb)
+                out.append((k, ("maybe", j) if (ma or mb) else j))
+            else:
+                v = da.get(k, db.get(k))
+                out.append((k, v if (isinstance(v, tuple) and v and v[0] == "maybe") else ("maybe", v)))
+        return ("dictlit", tuple(out))
     return join_val(a, b)
 
 
@@ -121,8 +139,14 @@ class InterFlow(Flow):
                 if k.arg is None:
                     extra = inter.splat_values(self, k.value, env)
                     for p, v in extra.items():
-                        if p in callee.params and (inter.track is None or p in inter.track) and v != TOP:
-                            val[p] = v
+                        if p in callee.params and (inter.track is None or p in inter.track):
+                            if isinstance(v, tuple) and v and v[0] == "maybe":
+                                d = callee.defaults().get(p)
+                                v = join_any(v[1], Flow(self.cfg).eval(d, Env())) if d is not None else TOP
+                            if v != TOP:
+                                val[p] = v
+                            else:
+                                val.pop(p, None)
         events, ret = inter.summary(callee, val)
         self.call_vals[id(e)] = (callee, val)
         self._add_events(events)
